@@ -8,4 +8,8 @@ CONSTANTS
   PastEndRule = "ge"
   CompletionOrder = "rewrite-publish"
   Withdrawals = FALSE
+  ConcurrentWithdrawals = FALSE
+  HostReads = "snapshot"
+  Reannouncements = FALSE
+  ReannounceRule = "atomic"
 CHECK_DEADLOCK FALSE
